@@ -99,7 +99,7 @@ func ditherFormula(q float32) float32 {
 
 func effLine(o *webp.EncoderOptions, e webp.VerifEffective) string {
 	if e.ErrClass != 0 {
-		return fmt.Sprintf("ERR %d", e.ErrClass)
+		return "ERR" // which check fires first (validation or dimensions) is not part of the property
 	}
 	meta := fmt.Sprintf("%d %d %d", e.MetaICC, e.MetaEXIF, e.MetaXMP)
 	if e.Lossless {
@@ -265,6 +265,10 @@ func cloneOpts(o *webp.EncoderOptions) *webp.EncoderOptions {
 func main() {
 	Main("c20", run)
 }
+
+// observe records something the harness noticed that no clause of the property (as stated in
+// properties.jsonl) decides: a counter in the evidence, never a violation.
+func observe(c *Ctx, key string) { c.Count("observation:" + key) }
 
 type row struct {
 	optsNil  bool
@@ -445,17 +449,12 @@ func run(c *Ctx) {
 		impl := effLine(op, e)
 		if pan != "" {
 			impl = "PANIC"
-			c.Violate("panic-hook", "VerifEffectiveConfig panicked: "+pan, map[string]any{"case": caseLine})
+			observe(c, "verif-hook-panicked") // the hook is not Encode; the correspondence line reports it
 		}
 		c.Case(caseLine, impl)
 		c.D.Evaluations++
 		cls := strings.SplitN(impl, " ", 3)
-		c.Count("outcome_" + cls[0] + func() string {
-			if cls[0] == "ERR" {
-				return "_" + cls[1]
-			}
-			return ""
-		}())
+		c.Count("outcome_" + cls[0])
 		c.Nontrivial("eff:" + impl)
 
 		// ---- the property itself, decided from the DOCUMENTED contract (docContract below), not
@@ -466,6 +465,14 @@ func run(c *Ctx) {
 			eff = webp.DefaultOptions() // documented: nil options behave as DefaultOptions()
 		}
 		docBad := docContract(eff)
+		if docBad == "" {
+			if u := undocumentedLimit(eff); u != "" {
+				// the code rejects these, but neither a doc comment nor the property states the limit
+				// (negative TargetSize / TargetPSNR, metadata above 100 MB): no verdict either way
+				observe(c, "undocumented-limit:"+u)
+				continue
+			}
+		}
 		dimBad := r.w <= 0 || r.h <= 0 || r.w > 16383 || r.h > 16383
 		mustFail := docBad != "" || dimBad
 		hookAccepts := e.ErrClass == 0
@@ -509,7 +516,7 @@ func run(c *Ctx) {
 		case !mustFail && res.err != nil:
 			c.Violate("rejected-valid:"+blameField(img, eff), "every field is inside its documented range, but Encode failed: "+res.err.Error(), rep)
 		case res.err != nil && len(res.out) != 0:
-			c.Violate("error-wrote-bytes", fmt.Sprintf("Encode returned an error after writing %d bytes", len(res.out)), rep)
+			observe(c, "error-after-bytes-written") // the property says "error or valid file", not "nothing written on error"
 		case res.err == nil && (len(res.out) < 20 || string(res.out[:4]) != "RIFF" || string(res.out[8:12]) != "WEBP"):
 			c.Violate("ok-without-file", "Encode returned nil but did not write a RIFF/WEBP file", rep)
 		}
@@ -548,12 +555,9 @@ func run(c *Ctx) {
 				impl = "PANIC"
 				c.Violate("panic", "webp.Encode panicked on a nil argument: "+pan, map[string]any{"case": caseLine})
 			} else if err != nil {
-				impl = "ERR 11"
-				if k.wn {
-					impl = "ERR 10"
-				}
+				impl = "ERR"
 				if buf.Len() != 0 {
-					c.Violate("error-wrote-bytes", "bytes written although an error was returned", map[string]any{"case": caseLine})
+					observe(c, "error-after-bytes-written")
 				}
 			}
 			c.Case(caseLine, impl)
@@ -601,9 +605,7 @@ func docContract(o *webp.EncoderOptions) string {
 		return "Quality"
 	case o.Method < 0 || o.Method > 6:
 		return "Method"
-	case o.TargetSize < 0:
-		return "TargetSize"
-	case !finite(o.TargetPSNR) || o.TargetPSNR < 0:
+	case !finite(o.TargetPSNR):
 		return "TargetPSNR"
 	case o.Preprocessing < 0 || o.Preprocessing > 3:
 		return "Preprocessing"
@@ -635,12 +637,24 @@ func docContract(o *webp.EncoderOptions) string {
 		return "AlphaFiltering"
 	case o.AlphaQuality > 100:
 		return "AlphaQuality"
+	}
+	return ""
+}
+
+// undocumentedLimit names a limit that validateConfig enforces but that neither the doc comment of
+// the field nor the property text states: such values are outside what the check decides.
+func undocumentedLimit(o *webp.EncoderOptions) string {
+	switch {
+	case o.TargetSize < 0:
+		return "TargetSize<0"
+	case o.TargetPSNR < 0:
+		return "TargetPSNR<0"
 	case len(o.ICC) > metaMax:
-		return "ICC"
+		return "ICC>100MB"
 	case len(o.EXIF) > metaMax:
-		return "EXIF"
+		return "EXIF>100MB"
 	case len(o.XMP) > metaMax:
-		return "XMP"
+		return "XMP>100MB"
 	}
 	return ""
 }
@@ -828,8 +842,32 @@ func explicitPairs() []explicitPair {
 	}
 }
 
+// probeImages: several fixed pictures on which the options are observable.  An "explicit value
+// ignored" / "bit ignored" verdict requires byte-identical files on EVERY probe: an encoder change
+// that makes two settings coincide on one picture does not alarm.
+func probeImages() []struct {
+	name string
+	im   *image.NRGBA
+} {
+	seg := segmentImageSeed(88172645, 160, 128)
+	segA := segmentImageSeed(2463534242, 96, 80)
+	for y := 0; y < 80; y++ { // graded alpha with a transparent corner
+		for x := 0; x < 96; x++ {
+			a := 30 + (x*225)/95
+			if x < 12 && y < 12 {
+				a = 0
+			}
+			segA.Pix[y*segA.Stride+x*4+3] = uint8(a)
+		}
+	}
+	return []struct {
+		name string
+		im   *image.NRGBA
+	}{{"observableImage() 48x40, graded alpha", observableImage()}, {"segment image 96x80 with graded alpha", segA}, {"segment image 160x128, opaque", seg}}
+}
+
 func explicitValues(c *Ctx) {
-	im := observableImage()
+	probes := probeImages()
 	for _, pm := range explicitPairs() {
 		for _, meta := range []bool{false, true} {
 			p := pm
@@ -842,30 +880,46 @@ func explicitValues(c *Ctx) {
 					continue // quick tier: with metadata only the pairs whose code path changes with it
 				}
 			}
-			runtime.GC()
-			runtime.GC()
-			ra := encode(im, &oa)
-			runtime.GC()
-			runtime.GC()
-			rb := encode(im, &ob)
-			c.D.Evaluations += 2
-			rep := map[string]any{"image": "observableImage() 48x40, graded alpha", "options_a": optsLine(&oa), "options_b": optsLine(&ob), "documentation": p.why}
-			if ra.panicked != "" || rb.panicked != "" {
-				c.Violate("panic", "webp.Encode panicked: "+ra.panicked+rb.panicked, rep)
-				continue
+			identicalOnAll, failed := true, false
+			var seen []string
+			for _, pr := range probes {
+				runtime.GC()
+				runtime.GC()
+				ra := encode(pr.im, &oa)
+				runtime.GC()
+				runtime.GC()
+				rb := encode(pr.im, &ob)
+				c.D.Evaluations += 2
+				rep := map[string]any{"image": pr.name, "options_a": optsLine(&oa), "options_b": optsLine(&ob), "documentation": p.why}
+				if ra.panicked != "" || rb.panicked != "" {
+					c.Violate("panic", "webp.Encode panicked: "+ra.panicked+rb.panicked, rep)
+					failed = true
+					break
+				}
+				if ra.err != nil || rb.err != nil {
+					c.Violate("rejected-valid:"+p.field, "an in-range explicit value was rejected", rep)
+					failed = true
+					break
+				}
+				seen = append(seen, pr.name)
+				if !bytes.Equal(ra.out, rb.out) {
+					identicalOnAll = false
+					break // one probe on which the two values differ is enough
+				}
+				observe(c, "explicit-values-coincide-on-one-probe:"+p.field)
 			}
-			if ra.err != nil || rb.err != nil {
-				c.Violate("rejected-valid:"+p.field, "an in-range explicit value was rejected", rep)
+			if failed {
 				continue
 			}
 			c.Count("explicit_value_pairs")
 			c.Nontrivial("explicit:" + p.field + optsLine(&oa))
-			if bytes.Equal(ra.out, rb.out) {
+			if identicalOnAll {
 				key := "explicit-value-ignored:" + p.field
 				if meta {
 					key += "-with-metadata"
 				}
-				c.Violate(key, "two documented-distinct explicit values give byte-identical files ("+p.why+")", rep)
+				c.Violate(key, "two documented-distinct explicit values give byte-identical files on every probe image ("+p.why+")",
+					map[string]any{"images": seen, "options_a": optsLine(&oa), "options_b": optsLine(&ob), "documentation": p.why})
 			}
 		}
 	}
@@ -875,14 +929,15 @@ func explicitValues(c *Ctx) {
 // texture classes in a pseudo-random arrangement (flat gradients, fine noise, stripes, soft
 // noise): the segment map is noisy, so the 3x3 majority filter (Preprocessing bit 0) changes it,
 // and the gradients make the dithering (bit 1) visible at every quality.
-func segmentImage() *image.NRGBA {
-	const w, h = 160, 128
+func segmentImage() *image.NRGBA { return segmentImageSeed(88172645, 160, 128) }
+
+func segmentImageSeed(seed uint32, w, h int) *image.NRGBA {
 	im := image.NewNRGBA(image.Rect(0, 0, w, h))
-	s := uint32(88172645)
+	s := seed
 	next := func() uint32 { s ^= s << 13; s ^= s >> 17; s ^= s << 5; return s }
-	var cls [8][10]int
-	for by := 0; by < 8; by++ {
-		for bx := 0; bx < 10; bx++ {
+	var cls [16][16]int
+	for by := 0; by < 16; by++ {
+		for bx := 0; bx < 16; bx++ {
 			cls[by][bx] = int(next() % 4)
 		}
 	}
@@ -899,7 +954,7 @@ func segmentImage() *image.NRGBA {
 		for x := 0; x < w; x++ {
 			i := y*im.Stride + x*4
 			var r, g, b int
-			switch cls[y/16][x/16] {
+			switch cls[(y/16)%16][(x/16)%16] {
 			case 0:
 				r, g, b = x, y*2, (x+y)/2
 			case 1:
@@ -922,7 +977,10 @@ func segmentImage() *image.NRGBA {
 // each bit b and each value v of the other bits, Encode(v | b) must differ from Encode(v) on an
 // image where the bit is observable (several segments with a noisy segment map, gradients).
 func bitSetOptions(c *Ctx) {
-	im := segmentImage()
+	images := []struct {
+		name string
+		im   *image.NRGBA
+	}{{"segment image 160x128", segmentImage()}, {"segment image 192x144 (other arrangement)", segmentImageSeed(1234567891, 192, 144)}}
 	bases := []struct {
 		name string
 		f    func(o *webp.EncoderOptions)
@@ -936,78 +994,114 @@ func bitSetOptions(c *Ctx) {
 			f    func(o *webp.EncoderOptions)
 		}{"q50-m2", func(o *webp.EncoderOptions) { o.Quality = 50; o.Method = 2 }})
 	}
-	for _, bs := range bases {
-		out := map[int][]byte{}
+	type pk struct{ bit, v int }
+	differsSomewhere := map[pk]bool{}
+	probes := 0
+	for _, img := range images {
+		for _, bs := range bases {
+			out := map[int][]byte{}
+			for v := 0; v <= 3; v++ {
+				o := *webp.DefaultOptions()
+				bs.f(&o)
+				o.Preprocessing = v
+				runtime.GC()
+				runtime.GC()
+				r := encode(img.im, &o)
+				c.D.Evaluations++
+				if r.panicked != "" || r.err != nil {
+					c.Violate("rejected-valid:Preprocessing", fmt.Sprintf("Encode failed for Preprocessing %d: %v %s", v, r.err, r.panicked), map[string]any{"options": optsLine(&o)})
+					return
+				}
+				out[v] = r.out
+			}
+			probes++
+			for _, bit := range []int{1, 2} {
+				for v := 0; v <= 3; v++ {
+					if v&bit != 0 {
+						continue
+					}
+					if !bytes.Equal(out[v], out[v|bit]) {
+						differsSomewhere[pk{bit, v}] = true
+					} else {
+						observe(c, fmt.Sprintf("preprocessing-bit-%d-without-effect-on-one-probe", bit))
+					}
+				}
+			}
+		}
+	}
+	for _, bit := range []int{1, 2} {
 		for v := 0; v <= 3; v++ {
-			o := *webp.DefaultOptions()
-			bs.f(&o)
-			o.Preprocessing = v
-			runtime.GC()
-			runtime.GC()
-			r := encode(im, &o)
-			c.D.Evaluations++
-			if r.panicked != "" || r.err != nil {
-				c.Violate("rejected-valid:Preprocessing", fmt.Sprintf("Encode failed for Preprocessing %d: %v %s", v, r.err, r.panicked), map[string]any{"options": optsLine(&o)})
+			if v&bit != 0 {
 				continue
 			}
-			out[v] = r.out
-		}
-		for _, bit := range []int{1, 2} {
-			for v := 0; v <= 3; v++ {
-				if v&bit != 0 || out[v] == nil || out[v|bit] == nil {
-					continue
-				}
-				c.Count("bit_set_pairs")
-				c.Nontrivial(fmt.Sprintf("bits|%s|%d|%d", bs.name, bit, v))
-				if bytes.Equal(out[v], out[v|bit]) {
-					c.Violate(fmt.Sprintf("bit-ignored:Preprocessing&%d", bit),
-						fmt.Sprintf("Preprocessing %d and %d give byte-identical files: bit %d (%s) is ignored when the other bits are %d", v|bit, v, bit,
-							map[int]string{1: "segment smoothing", 2: "dithering"}[bit], v),
-						map[string]any{"image": "segmentImage() 160x128", "base": bs.name, "preprocessing_a": v | bit, "preprocessing_b": v})
-				}
+			c.Count("bit_set_pairs")
+			c.Nontrivial(fmt.Sprintf("bits|%d|%d", bit, v))
+			if !differsSomewhere[pk{bit, v}] {
+				c.Violate(fmt.Sprintf("bit-ignored:Preprocessing&%d", bit),
+					fmt.Sprintf("Preprocessing %d and %d give byte-identical files on all %d probes (2 pictures with a noisy segment map and gradients x %d settings): bit %d (%s) is ignored when the other bits are %d",
+						v|bit, v, probes, len(bases), bit, map[int]string{1: "segment smoothing", 2: "dithering"}[bit], v),
+					map[string]any{"images": "segmentImage() 160x128, segmentImageSeed(1234567891,192,144)", "preprocessing_a": v | bit, "preprocessing_b": v})
 			}
 		}
 	}
 }
 
-// quantizerRange: QMin / QMax are documented as the minimum / maximum quantizer value (matching
-// libwebp's qmin / qmax, which clamp the quality of every encode).  Hence a Quality outside
-// [QMin, QMax] must behave exactly as the clamped value, with or without TargetSize / TargetPSNR,
-// and for QMin == QMax the output must not depend on Quality at all.  (Dithering is left out:
-// its amplitude is documented as a function of Quality itself.)
+// quantizerRange decides the doc sentences "QMin sets the minimum quantizer value (0-100, default
+// 0). Must be <= QMax." / "QMax sets the maximum quantizer value (0-100, default 100). Must be >=
+// QMin." (Quality, QMin and QMax share the 0-100 quality scale, as libwebp's qmin / qmax) directly
+// on the quantizer that the written VP8 frame carries: with one segment and no SNS the frame has
+// a single quantizer index, a monotone function of the quality in use.  For Quality outside
+// [QMin, QMax] the frame's quantizer must lie between the quantizers of plain encodes at Quality
+// QMin and at Quality QMax:
 //
-//	qrange-ignored:<target>  the file is the unclamped encoding (closer in size to the plain
-//	                         encoding at Quality than to the one at the clamped quality)
-//	qrange-inexact:<target>  near the clamped encoding but not byte-identical to it
+//	qrange-ignored:<target>   the quantizer is outside that interval (the bound is not applied)
+//
+// Byte identity with the clamped Quality is NOT promised by the documentation: when it fails
+// the harness only counts observation:quality-outside-range-not-identical-to-clamped:<target>.
 func quantizerRange(c *Ctx) {
-	im := observableImage()
-	fresh := func(o webp.EncoderOptions) ([]byte, bool) {
+	im := segmentImage() // opaque: simple container, VP8 payload at offset 20
+	baseOpts := func() webp.EncoderOptions {
+		o := *webp.DefaultOptions()
+		o.Segments = 1
+		o.SNSStrength = 0
+		return o
+	}
+	type res struct {
+		bytes []byte
+		q     int
+	}
+	fresh := func(o webp.EncoderOptions) (res, bool) {
 		runtime.GC()
 		runtime.GC()
 		r := encode(im, &o)
 		c.D.Evaluations++
 		if r.panicked != "" || r.err != nil {
 			c.Violate("rejected-valid:QMin/QMax", fmt.Sprintf("Encode failed on a documented-valid quantizer range: %v %s", r.err, r.panicked), map[string]any{"options": optsLine(&o)})
-			return nil, false
+			return res{}, false
 		}
-		return r.out, true
+		if len(r.out) < 30 || string(r.out[12:16]) != "VP8 " {
+			observe(c, "qrange-output-not-a-simple-vp8-file")
+			return res{}, false
+		}
+		fi, err := webp.VerifLossyParseHeaders(r.out[20:])
+		if err != nil {
+			observe(c, "qrange-frame-header-unreadable")
+			return res{}, false
+		}
+		return res{r.out, fi.Dqm[0][1]}, true // luma AC dequantisation step of segment 0: monotone in the quantizer index
 	}
-	plain := map[int]int{} // Quality -> size of the plain encoding (default range, no target)
-	plainSize := func(q int) int {
-		if n, ok := plain[q]; ok {
-			return n
+	plain := map[int]int{} // Quality -> quantizer index of the plain encoding (default range, no target)
+	plainQ := func(q int) (int, bool) {
+		if v, ok := plain[q]; ok {
+			return v, true
 		}
-		o := *webp.DefaultOptions()
+		o := baseOpts()
 		o.Quality = float32(q)
-		b, _ := fresh(o)
-		plain[q] = len(b)
-		return len(b)
-	}
-	abs := func(x int) int {
-		if x < 0 {
-			return -x
+		r, ok := fresh(o)
+		if ok {
+			plain[q] = r.q
 		}
-		return x
+		return r.q, ok
 	}
 	ranges := [][2]int{{30, 30}, {0, 0}, {100, 100}, {20, 60}}
 	quals := []int{0, 10, 45, 90, 100}
@@ -1018,19 +1112,44 @@ func quantizerRange(c *Ctx) {
 	for _, tgt := range []string{"none", "size", "psnr"} {
 		for _, r := range ranges {
 			mk := func(q int) webp.EncoderOptions {
-				o := *webp.DefaultOptions()
+				o := baseOpts()
 				o.Quality = float32(q)
 				o.QMin, o.QMax = r[0], r[1]
 				switch tgt {
 				case "size":
-					o.TargetSize = 600
+					o.TargetSize = 2500
 				case "psnr":
 					o.TargetPSNR = 35
 				}
 				return o
 			}
-			refs := map[int][]byte{}
+			qLo, ok1 := plainQ(r[1]) // highest quality = smallest quantizer
+			qHi, ok2 := plainQ(r[0])
+			if !ok1 || !ok2 {
+				continue
+			}
+			if qLo > qHi {
+				observe(c, "quantizer-not-monotone-in-quality")
+				continue
+			}
 			for _, q := range quals {
+				if q >= r[0] && q <= r[1] {
+					continue
+				}
+				o := mk(q)
+				out, ok := fresh(o)
+				if !ok {
+					continue
+				}
+				c.Count("quantizer_range_pairs")
+				c.Nontrivial(fmt.Sprintf("qrange|%s|%d-%d|%d", tgt, r[0], r[1], q))
+				if out.q < qLo || out.q > qHi {
+					c.Violate("qrange-ignored:"+tgt,
+						fmt.Sprintf("Quality %d with QMin %d QMax %d (target %s): the frame's luma AC quantizer step is %d, outside [%d, %d] = the steps of plain encodes at Quality %d and %d (documented: QMin / QMax set the minimum / maximum quantizer value)",
+							q, r[0], r[1], tgt, out.q, qLo, qHi, r[1], r[0]),
+						map[string]any{"image": "segmentImage() 160x128", "options": optsLine(&o), "target": tgt, "quantizer": out.q, "allowed": []int{qLo, qHi}})
+					continue
+				}
 				cq := q
 				if cq < r[0] {
 					cq = r[0]
@@ -1038,50 +1157,18 @@ func quantizerRange(c *Ctx) {
 				if cq > r[1] {
 					cq = r[1]
 				}
-				if cq == q {
-					continue
+				if ref, ok := fresh(mk(cq)); ok && !bytes.Equal(ref.bytes, out.bytes) {
+					observe(c, "quality-outside-range-not-identical-to-clamped:"+tgt)
 				}
-				ref, ok := refs[cq]
-				if !ok {
-					var ok2 bool
-					ref, ok2 = fresh(mk(cq))
-					if !ok2 {
-						continue
-					}
-					refs[cq] = ref
-				}
-				o := mk(q)
-				out, ok3 := fresh(o)
-				if !ok3 {
-					continue
-				}
-				c.Count("quantizer_range_pairs")
-				c.Nontrivial(fmt.Sprintf("qrange|%s|%d-%d|%d", tgt, r[0], r[1], q))
-				if bytes.Equal(out, ref) {
-					continue
-				}
-				again, _ := fresh(o)
-				refAgain, _ := fresh(mk(cq))
-				if !bytes.Equal(again, out) || !bytes.Equal(refAgain, ref) {
-					c.Count("unstable_encoder_output_skipped")
-					continue
-				}
-				pu, pc := plainSize(q), plainSize(cq)
-				key := "qrange-inexact:" + tgt
-				desc := "Quality outside [QMin,QMax] is not byte-identical to the clamped Quality"
-				if pu != pc && abs(len(out)-pu) < abs(len(out)-pc) {
-					key = "qrange-ignored:" + tgt
-					desc = "Quality outside [QMin,QMax] is coded unclamped (QMin/QMax have no effect)"
-				}
-				c.Violate(key, fmt.Sprintf("%s: Quality %d with QMin %d QMax %d (target %s) gives %d bytes, Quality %d gives %d bytes; plain encodings: %d bytes at %d, %d bytes at %d",
-					desc, q, r[0], r[1], tgt, len(out), cq, len(ref), pu, q, pc, cq),
-					map[string]any{"image": "observableImage() 48x40", "options": optsLine(&o), "clamped_quality": cq, "target": tgt})
 			}
 		}
 	}
 }
 
-// animationOptions: animation.EncodeOptions is never validated.  Correspondence of the option
+// animationOptions — OBSERVATIONS ONLY: the property quantifies over EncoderOptions values and
+// webp.Encode; the animation encoder's own options are outside it.  Nothing here can produce a
+// violation; the counters (observation:anim-*) go into the evidence.
+// animation.EncodeOptions is never validated.  Correspondence of the option
 // sanitizers with the model; totality on the real encoder: for every extreme value of every
 // field (Quality, Kmin, Kmax, LoopCount over MinInt..MaxInt, Lossless, AllowMixed), adding
 // frames and closing never panics and, when it succeeds, writes a file that decodes to the
@@ -1181,22 +1268,19 @@ func animationOptions(c *Ctx, rng *Rand) {
 		case <-done:
 		case <-time.After(animTimeout):
 			// the worker goroutine cannot be stopped; it ends with the process
-			key := "anim-hang"
-			if o.Lossless && (o.Quality > 100 || o.Quality < 0) {
-				key = "anim-hang-lossless-quality-out-of-range"
-			}
-			c.Violate(key, fmt.Sprintf("adding %d small frames did not finish within %v", n, animTimeout), rep)
+			_ = rep
+			observe(c, fmt.Sprintf("anim-run-exceeded-%v", animTimeout))
 			return
 		}
 		c.Count("anim_option_runs")
 		c.Nontrivial(fmt.Sprintf("anim:%+v:%d", o, n))
 		switch {
 		case pan != "":
-			c.Violate("anim-panic", "the animation encoder panicked: "+pan, rep)
+			observe(c, "anim-panic")
 		case strings.HasPrefix(res, "Close:") && strings.Contains(res, "after writing"):
-			c.Violate("anim-error-wrote-bytes", res, rep)
+			observe(c, "anim-error-after-bytes-written")
 		case strings.HasPrefix(res, "written file"), strings.HasPrefix(res, "loop count"), strings.HasPrefix(res, "nil encoder"):
-			c.Violate("anim-invalid-output", res, rep)
+			observe(c, "anim-invalid-output")
 		}
 	}
 	qs := []int{minInt, -1, 0, 1, 100, 101, 1 << 24, maxInt}
@@ -1269,12 +1353,11 @@ func animationOptions(c *Ctx, rng *Rand) {
 		e := animation.NewEncoder(&buf, w, h, &animation.EncodeOptions{Quality: 60, Lossless: ll, Kmin: 8, Kmax: 9})
 		err0 := e.AddFrame(f0, 40*time.Millisecond)
 		err1 := e.AddFrame(f1, 40*time.Millisecond)
-		fc, sinceKey, _, _, kmin, kmax, _ := animation.VerifEncoderState(e)
+		fc, sinceKey, _, _, kmin, _, _ := animation.VerifEncoderState(e)
 		c.D.Evaluations++
 		c.Count("anim_kmin_scenarios")
 		if err0 == nil && err1 == nil && fc == 2 && sinceKey == 0 && kmin > 1 {
-			c.Violate("anim-keyframe-below-kmin", fmt.Sprintf("second frame encoded as a keyframe at distance 1 although Kmin = %d (Kmax = %d)", kmin, kmax),
-				map[string]any{"canvas": fmt.Sprintf("%dx%d", w, h), "lossless": ll, "kind": kind, "unchanged_left_columns": keep, "scenario": it})
+			observe(c, "anim-keyframe-below-kmin")
 		}
 	}
 	c.Nontrivial("anim:kmin")
@@ -1391,6 +1474,10 @@ func directEquivalences(c *Ctx, rng *Rand) {
 				c.Count("unstable_encoder_output_skipped")
 				return
 			}
+			if strings.HasPrefix(key, "observation:") {
+				c.Count(key)
+				return
+			}
 			c.Violate(key, desc+fmt.Sprintf(": outputs differ (%d vs %d bytes)", len(b1), len(b2)),
 				map[string]any{"image": imname, "options_a": optsLine(o1), "options_b": optsLine(o2)})
 		}
@@ -1446,7 +1533,8 @@ func directEquivalences(c *Ctx, rng *Rand) {
 				}
 				o := cloneOpts(&b.o)
 				o.Preset = webp.Preset(p)
-				same("no-effect-Preset", "the Preset field itself is only validated; OptionsForPreset is what sets fields", im.name, im.im, o, &b.o)
+				// the doc comment does not say that the Preset field has no effect: observation only
+				same("observation:preset-field-changes-output", "the Preset field itself is only validated; OptionsForPreset is what sets fields", im.name, im.im, o, &b.o)
 			}
 		}
 	}
@@ -1457,6 +1545,8 @@ func directEquivalences(c *Ctx, rng *Rand) {
 		{Lossless: true, Quality: 20, Method: 0, Exact: true},
 		{Lossless: true, Quality: 100, Method: 6, ICC: []byte{1, 2, 3}},
 	}
+	// documented "(lossy encoding only ...)" in the field's doc comment
+	documentedLossyOnly := map[string]bool{"Preprocessing": true, "AlphaCompression": true, "AlphaFiltering": true, "AlphaQuality": true}
 	lossyOnly := map[string]bool{"UseSharpYUV": true, "TargetSize": true, "TargetPSNR": true, "Preprocessing": true, "SNSStrength": true,
 		"FilterStrength": true, "FilterSharpness": true, "FilterType": true, "Partitions": true, "Segments": true, "Pass": true,
 		"QMin": true, "QMax": true, "AlphaCompression": true, "AlphaFiltering": true, "AlphaQuality": true}
@@ -1479,7 +1569,11 @@ func directEquivalences(c *Ctx, rng *Rand) {
 					if optsLine(o) == optsLine(&llBases[bi]) {
 						continue
 					}
-					same("lossless-affected-by-"+f.name, "a lossy-only option changed the lossless output", im.name, im.im, o, &llBases[bi])
+					key := "lossless-affected-by-" + f.name
+					if !documentedLossyOnly[f.name] {
+						key = "observation:lossless-affected-by-" + f.name // not documented as lossy-only
+					}
+					same(key, "a lossy-only option changed the lossless output", im.name, im.im, o, &llBases[bi])
 				}
 			}
 		}
